@@ -17,7 +17,7 @@ func init() {
 		Run:   runC11,
 		Level: "exploration",
 		Rule: "a run = one pool kind drawn from the workloads of the other checks, always with the race detector compiled in: http/scenario pools with shared steps, templates, [next] iterators and postprocessors (C15, C19 scenario mode), grpc and grpc/scenario pools with shared method table and metadata maps (C20), http and connect guns with per-instance or shared clients (C09, C10), " +
-			"all providers with several consumers (C08), the engine with stub guns that monitor gun ownership (C03), the phout / jsonlines aggregators with concurrent reporters (C06); oracle: (1) any 'WARNING: DATA RACE' report or runtime fatal error with a pandora frame in the worker's stderr, (2) gun-ownership monitors (one gun per instance, no overlapping Shoot), " +
+			"all providers with several consumers (C08), the engine with stub guns that monitor gun ownership (C03), the phout / jsonlines aggregators with concurrent reporters (C06), several pools of scripted and real components ending, failing and being cancelled (C05), schedules shared by concurrent callers (C02), startup profiles and late instances (C12, C04); oracle: (1) any 'WARNING: DATA RACE' report or runtime fatal error with a pandora frame in the worker's stderr, (2) gun-ownership monitors (one gun per instance, no overlapping Shoot), " +
 			"(3) the cross-instance isolation oracles of the sub-workload (another instance's token, metadata, data-source row or sample id); non-trivial = at least two instances ran concurrently; distinct = distinct schedule-trace hash",
 		Components: map[string]string{
 			"all pandora components of the drawn pool kind": "real, compiled with -race", "Go race detector": "real (happens-before analysis on the seeded schedule)", "targets": "in-bubble servers", "network, disk, clock": "simulated",
@@ -26,7 +26,7 @@ func init() {
 	})
 }
 
-var c11Kinds = []string{"C15", "C15", "C20", "C20", "C19", "C09", "C10", "C08", "C03", "C06", "C14"}
+var c11Kinds = []string{"C15", "C15", "C20", "C20", "C19", "C09", "C10", "C08", "C03", "C06", "C14", "C05", "C02", "C12", "C04"}
 
 // signatures of the sub-workloads that are statements about isolation between instances
 var c11Relevant = []string{"variable-flow", "scenario/metadata", "metadata-leak", "metadata", "next-rows", "next-elements", "scenario/next-rows", "duplicate-sample-id", "duplicate-ammo-id", "CRASH", "gun/", "samples", "scenario/message", "message"}
